@@ -577,7 +577,7 @@ func c06PerCall(c *core.Ctx, r *core.Reporter) {
 		}
 		bad := false
 		n := 0
-		core.Instrs(fn, func(in ssa.Instruction) {
+		c.RegionInstrs(fn, func(in ssa.Instruction) { // the function or the phases it has been split into
 			st, ok := in.(*ssa.Store)
 			if !ok {
 				return
